@@ -334,3 +334,13 @@ MUTANTS.setdefault('C05', []).extend([
     ('fh-mnt-id-dropped', _FH, "            mnt_id: mount_id as MountId,", "            mnt_id: 0,"),
     ('fh-oversize-check-removed', _FH, "        if needed > MAX_HANDLE_SIZE {", "        if false {"),
 ])
+
+MUTANTS.setdefault('C10', []).extend([
+    ('ovl-rmdir-counts-unloaded-dir', 'src/overlayfs/mod.rs', "            self.load_directory(ctx, &node)?;\n            let (count, whiteouts) = node.count_entries_and_whiteout(ctx)?;", "            self.load_directory(ctx, &pnode)?;\n            let (count, whiteouts) = node.count_entries_and_whiteout(ctx)?;"),
+])
+MUTANTS.setdefault('C01', []).extend([
+    ('init-compat-22-reply-split-at-8', S, "                                out.as_slice().split_at(FUSE_COMPAT_22_INIT_OUT_SIZE).0,", "                                out.as_slice().split_at(FUSE_COMPAT_INIT_OUT_SIZE).0,"),
+])
+MUTANTS.setdefault('C05', []).extend([
+    ('pt-lookup-root-dotdot-prefix', P, "name.to_bytes_with_nul().starts_with(PARENT_DIR_CSTR)", "name.to_bytes().starts_with(b\"..\")"),
+])
